@@ -118,6 +118,14 @@ def fpoll (s : FSt) (listing : List Nat) : FSt × List Nat :=
   let new := sortDedup (listing.filter (fun x => !s.seen.contains x))
   ({ seen := s.seen ++ new }, new)
 
+/-- A poll during which the consumer raises on path `bad`: the loop `for fn in sorted(new): seen.add(fn); emit(fn)`
+stops there, so exactly the paths up to and including `bad` are marked seen and handed over. -/
+def fpollFail (s : FSt) (listing : List Nat) (bad : Nat) : FSt × List Nat :=
+  let new := sortDedup (listing.filter (fun x => !s.seen.contains x))
+  let k := new.idxOf bad
+  let out := if k < new.length then new.take (k + 1) else new
+  ({ seen := s.seen ++ out }, out)
+
 def frun : FSt → List (List Nat) → FSt × List (List Nat)
   | s, [] => (s, [])
   | s, l :: ls =>
